@@ -11,7 +11,7 @@ RULE = ("seeded designs; IterateSATGen / RandomGen / IterateGen asked for n in {
         "fewer may come back, never duplicates; non-trivial = |V|>=2; distinct = (design skeleton, strategy, n-class, peer)")
 ASSUMPTIONS = ["reference semantics (sim/refsem.py) reads the documentation correctly",
                "fake peers return only genuine models of the clauses they receive"]
-BUDGET = {"quick": 45, "thorough": 900}
+BUDGET = {"quick": 300, "thorough": 900}
 RUNS = {"quick": 2500, "thorough": 200000}
 NCLASS = ["0", "1", "V-1", "V", "V+1", "3V"]
 
